@@ -11,8 +11,8 @@ a = (full[:k] if k >= 0 else full).rstrip() + '\n\n'
 mx = json.load(open(f'{root}/seeded/matrix.json')) if os.path.exists(f'{root}/seeded/matrix.json') else {}
 checks = [c['property_id'] for c in json.load(open(f'{root}/MANIFEST.json'))['checks']]
 a += "### A.6 Seeded property-breaking changes and which checks report them\n\n"
-a += ("Twenty-three changes to `/repo` - one per claimable property in round 1, four more (`C08b`, `C10b`, `C15b`,\n"
-      "`C18b`) in round 2 - were produced by fresh sub-agents that saw only the\n"
+a += ("Twenty-six changes to `/repo` - one per claimable property in round 1, seven more (`C08b`, `C10b`, `C12b`,\n"
+      "`C14b`, `C15b`, `C18b`, `C19b`) in round 2 - were produced by fresh sub-agents that saw only the\n"
       "property text and the code (never `/verif`): each compiles, passes the existing test suite of the packages it\n"
       "touches, and breaks the property on some input, schedule or crash point that the sub-agent demonstrated with a\n"
       "test of its own. Each is kept under `/verif/seeded/<id>/` (`patch.diff`, the demonstration test, the logs of my own\n"
